@@ -21,6 +21,7 @@ static const char *const NAMES[] = {
 	"dispatch_data with a custom destructor: two holders (one of a subrange) release concurrently",
 	"serial queue with an item that re-submits to the queue being released",
 	"serial queue: ownership handed to an item (the item releases the last application reference) while a drainer is active",
+	"data source whose cancel handler drops the last application reference: merge, then cancel from the main thread",
 };
 #define NSC ((int)(sizeof(NAMES) / sizeof(NAMES[0])))
 enum { OBJ_Q = 1, OBJ_T = 2, OBJ_SRC = 3, OBJ_GRP = 4, OBJ_SEM = 5 };
@@ -64,6 +65,13 @@ static void finalizer(void *ctx)
 }
 static void specific_dtor(void *ctx) { vx_ev(EV_DTOR, ctx == g_ctx_q, 0); note_done(); }
 static void cancel_handler(void *ctx) { (void)ctx; vx_ev(EV_CANCELH, 0, dispatch_get_specific(&KEY_T) == (void *)&KEY_T); note_done(); }
+static void cancel_handler_releasing(void *ctx)
+{
+	(void)ctx;
+	vx_ev(EV_CANCELH, 0, dispatch_get_specific(&KEY_T) == (void *)&KEY_T);
+	rel(g_src, OBJ_SRC);          // the application's last reference goes away inside the cancel handler
+	note_done();
+}
 static void src_handler(void *ctx) { (void)ctx; item_body(50); }
 static void warm_fn(void *c) { *(int *)c = 1; }
 static void warm(dispatch_queue_t q) { int d = 0; dispatch_async_f(q, &d, warm_fn); int *a[2] = { &d, (int *)(intptr_t)1 }; vx_wait_until(pred_int_ge, a); }
@@ -186,6 +194,20 @@ static void run(int v)
 		dispatch_async_f(g_q, (void *)(intptr_t)1, item_resubmit);
 		rel(g_q, OBJ_Q);
 		expect = 3; break;
+	case 12:
+		g_q = dispatch_queue_create_with_target("vx.life.q", NULL, g_t); warm(g_q);
+		dispatch_queue_set_specific(g_q, &KEY_T, (void *)&KEY_T, NULL);
+		g_src = dispatch_source_create(DISPATCH_SOURCE_TYPE_DATA_ADD, 0, 0, g_q);
+		vx_watch_free(g_src, OBJ_SRC);
+		dispatch_set_context(g_src, g_ctx_q);
+		dispatch_set_finalizer_f(g_src, finalizer);
+		dispatch_source_set_event_handler_f(g_src, src_handler);
+		dispatch_source_set_cancel_handler_f(g_src, cancel_handler_releasing);
+		dispatch_activate(g_src);
+		vx_focus_begin();
+		dispatch_source_merge_data(g_src, 1);
+		dispatch_source_cancel(g_src);      // must stay memory-safe although the handler may already have dropped the last reference
+		expect = 2; break;
 	case 11:
 		g_q = mkq("vx.life.q", NULL, g_t, OBJ_Q); warm(g_q);
 		vx_focus_begin();
@@ -199,6 +221,7 @@ static void run(int v)
 	switch (v) {
 	case 4: wait_freed(OBJ_Q); wait_freed(OBJ_T); break;
 	case 5: wait_freed(OBJ_SRC); wait_freed(OBJ_Q); break;
+	case 12: wait_freed(OBJ_SRC); break;
 	case 6: wait_freed(OBJ_GRP); break;
 	case 7: wait_freed(OBJ_SEM); break;
 	case 9: break;
@@ -211,7 +234,7 @@ static int check(int v, const vx_log *l, char *msg, size_t len)
 {
 	int last_end = ev_last(l, EV_END, 1);
 	for (uint32_t i = 0; i < l->n; i++) if (l->ev[i].kind == EV_END && (int)i > last_end) last_end = (int)i;
-	int has_final = (v <= 5 || v == 10 || v == 11), nfinal = 0, nfree_q = ev_count(l, EV_FREE, OBJ_Q);
+	int has_final = (v <= 5 || v == 10 || v == 11 || v == 12), nfinal = 0, nfree_q = ev_count(l, EV_FREE, OBJ_Q);
 	for (uint32_t i = 0; i < l->n; i++) {
 		const vx_event *e = &l->ev[i];
 		if (e->kind == EV_FINAL) {
@@ -225,11 +248,15 @@ static int check(int v, const vx_log *l, char *msg, size_t len)
 		if (e->kind == EV_CANCELH && e->arg != 1) FAILF(msg, len, "cancel handler did not run on the source's target queue");
 	}
 	if (has_final && nfinal != 1) FAILF(msg, len, "finalizer ran %d times (expected exactly once)", nfinal);
-	if (v != 6 && v != 7 && v != 9 && nfree_q != 1) FAILF(msg, len, "the queue's memory was released %d times by the end (expected once)", nfree_q);
+	if (v != 6 && v != 7 && v != 9 && v != 12 && nfree_q != 1) FAILF(msg, len, "the queue's memory was released %d times by the end (expected once)", nfree_q);
 	if (v == 4) {
 		int ft = ev_first(l, EV_FREE, OBJ_T), fq = ev_first(l, EV_FREE, OBJ_Q);
 		if (ft < 0) FAILF(msg, len, "the target queue was never freed");
 		if (fq < 0 || ft < fq) FAILF(msg, len, "the target queue was freed (event #%d) before the queue targeting it (event #%d)", ft, fq);
+	}
+	if (v == 12) {
+		if (ev_count(l, EV_CANCELH, 0) != 1) FAILF(msg, len, "cancel handler ran %d times", ev_count(l, EV_CANCELH, 0));
+		if (ev_count(l, EV_FREE, OBJ_SRC) != 1) FAILF(msg, len, "the source was freed %d times", ev_count(l, EV_FREE, OBJ_SRC));
 	}
 	if (v == 5) {
 		if (ev_count(l, EV_CANCELH, 0) != 1) FAILF(msg, len, "cancel handler ran %d times", ev_count(l, EV_CANCELH, 0));
